@@ -1,12 +1,17 @@
 import TracklibVerif.Lemmas.GraphBack
 import TracklibVerif.Lemmas.GraphPathExt
+import TracklibVerif.Lemmas.GraphMut
+import TracklibVerif.Lemmas.GraphR4
 import Mathlib.Algebra.Order.Group.Int
 /-! # C07 — a returned shortest path is a real, optimal, geometrically continuous route
 
 Property theorems only (helper lemmas: `Lemmas/GraphPath.lean` — the invariant on `antecedent` /
 `antecedent_edge`; `Lemmas/GraphBack.lean` — the backward walk). The model (`Model/Graph.lean`) mirrors
 `Network.shortest_path` = `run_routing_forward(source, target, cut)` followed by `run_routing_backward(target)`
-as it is after fix 9d0d428. Weights: any linearly ordered additive commutative monoid, non-negative (`WFNet`);
+as it is after fix 9d0d428. Weights: any linear order with an addition that satisfies `WalkAdd` (`Lemmas/Graph.lean`: adding
+a non-negative weight does not decrease a label, addition on the right is monotone — every linearly ordered additive
+commutative monoid, and also IEEE-754 round-to-nearest addition on the non-NaN doubles, which is not associative: the weight
+of a route is the sum taken from the source outwards, `((0 + w₁) + w₂) + …`, as the code takes it), non-negative (`WFNet`);
 edge ids unique (`UniqueIds`, `EDGES` is a dict); points: any type.
 
 Sections: the four theorems of the design (walk, optimal, geometry chained, unreachable ⇒ None) on point lists;
@@ -14,9 +19,13 @@ any cut-off, also below the true distance (`path_cut_sound`); the same through t
 (`Model/GraphPathExt.lean`: `Track()`, `addObs`, `copy`, `reverse`, `>`, `+` — `track_operators_agree`,
 `geometry_chained_track`, `path_optimal_track`); sequences of calls on one `Network` object with nodes given by id or by
 object and an optional `output_dict` (`session_*`, `backward_after_full_search`, `backward_settled_optimal`,
-`output_dict_entries_sound`). Exact arithmetic: weights are elements of a linearly ordered additive commutative monoid
-(integers, rationals: what the exact correspondence streams use); float rounding of sums is outside the theorems
-(sampled by the float stream of the harness, model instantiated at `Float`).
+`output_dict_entries_sound`); a network that is MODIFIED between the calls (`Model/GraphMut.lean`: edges and nodes added
+after searches, `getEdge(i).weight = w`, new polylines, moved nodes, `getEdge(i).orientation = o` — `mut_path_fresh`,
+`mut_path_optimal`, `mut_path_cut_sound`, `mut_geometry_chained`, `orientation_attribute_not_read`,
+`path_after_orientation_assignment`, `path_any_history`, `mut_never_diverges`). Arithmetic: no theorem uses associativity, commutativity or cancellation of `+`
+(`WalkAdd` only), so the statements are about the sums as the code rounds them — PROVIDED the double addition satisfies
+`WalkAdd`, which is a fact about IEEE-754 that is not proved here (Lean's `Float` is opaque); the float stream of the harness
+runs the same model instantiated at `Float` bit for bit. "The shortest distance" is then the least rounded sum over walks.
 
 `Route net geo s l g g' t y` (see `Lemmas/GraphBack.lean`) says: `l ++ [t]` is a list of nodes starting at `s` in which
 each consecutive pair is joined by an existing edge travelled in a direction its orientation permits, `y` is the sum of
@@ -25,7 +34,7 @@ travel and each without its last vertex (= the first vertex of the next polyline
 `g'` is the same concatenation with each polyline deprived of its first vertex instead. -/
 namespace TV.C07
 open TV.Graph
-variable {W : Type} [AddCommMonoid W] [LinearOrder W] [IsOrderedAddMonoid W] {P : Type}
+variable {W : Type} [LinearOrder W] [Add W] [Zero W] [WalkAdd W] {P : Type}
 
 /-- the state left by the forward pass of `shortest_path(s, t, cut)` satisfies both invariants -/
 theorem forward_state_good (net : Net W) (hnet : WFNet net) (s t : Nat) (hs : s < net.n) (cut : Option W) :
@@ -157,7 +166,7 @@ theorem path_cut_sound (net : Net W) (hnet : WFNet net) (hu : UniqueIds net) (ge
 /-! ### the track operators (`copy`, `reverse`, `>`, `+`) as modelled for C04 -/
 open TV.GraphExt
 
-omit [IsOrderedAddMonoid W] in
+omit [WalkAdd W] in
 /-- `shortest_path` with `run_routing_backward` written on TRACKS with the operators of the C04 model
 (`track = track + (edge_geom > 1)` = `Seq.concat track (Seq.dropFirst edge_geom 1)`, `reverse` = copy with the points
 reversed, `Track()` / `addObs`) returns: `None` / a path exactly when the list-level model does, with the same node list,
@@ -213,7 +222,7 @@ theorem path_optimal_track (net : Net W) (hnet : WFNet net) (hu : UniqueIds net)
 
 /-! ### several searches on one `Network` object -/
 
-omit [IsOrderedAddMonoid W] in
+omit [WalkAdd W] in
 /-- `shortest_path(source, target, cut[, output_dict])` called at any point of a session returns what it returns on
 a fresh network: it does not depend on the flags left on the nodes by earlier searches (`__resetFlags`), on whether
 the nodes are designated by id or by `Node` object (`__correctInputNode`), nor on an `output_dict` being passed; the
@@ -224,14 +233,14 @@ theorem session_path_fresh (net : Net W) (geo : GeoT) (order : List Nat) (se : S
       .path (shortestPathT net geo (correctInputNode s) (correctInputNode t) cut)
             (shortestDistance net (correctInputNode s) (correctInputNode t) cut) := rfl
 
-omit [IsOrderedAddMonoid W] in
+omit [WalkAdd W] in
 /-- `shortest_distance(source, target, cut[, output_dict])` at any point of a session = on a fresh network -/
 theorem session_dist_fresh (net : Net W) (geo : GeoT) (order : List Nat) (se : Sess W) (s t : NodeArg) (cut : Option W)
     (ud : Bool) :
     (stepOp net geo order se (.dist s (some t) cut ud)).2 =
       .dist (shortestDistance net (correctInputNode s) (correctInputNode t) cut) := rfl
 
-omit [IsOrderedAddMonoid W] in
+omit [WalkAdd W] in
 /-- the entries written to a caller's `output_dict` by `shortest_path(s, t, cut, output_dict)` and by
 `shortest_distance(s, t, cut, output_dict)` are the same, and so are the flags left on the nodes -/
 theorem session_path_dist_same_state (net : Net W) (geo : GeoT) (order : List Nat) (se : Sess W) (s t : NodeArg)
@@ -368,7 +377,7 @@ theorem next_edges_as_built (n : Nat) (es : List (Edge W × P × P)) (hu : Uniqu
   simp only [NetObj.empty, List.nil_append]
   exact lookup_next ⟨n, es.map (·.1)⟩ hu u (es.map (·.1)) (fun e he => he)
 
-omit [AddCommMonoid W] [LinearOrder W] [IsOrderedAddMonoid W] in
+omit [LinearOrder W] [Add W] [Zero W] [WalkAdd W] in
 /-- the position of a node is the coordinate of its FIRST registration: later `addNode` / `addEdge` calls that mention
 the same id with other `Node` objects (other coordinates) do not change it, and `addEdge` registers both its ends. This
 is the position `run_routing_backward` starts the geometry with (`Obs(node.coord)`). -/
@@ -391,6 +400,143 @@ theorem first_registration_wins (nb : NetObj W P) (es : List (Edge W × P × P))
     generalize addNode (addNode nb e.src sc) e.tgt tc = nb' at h2 ⊢
     unfold posOf at h2 ⊢
     by_cases ha : 0 ≤ e.ori <;> by_cases hb : e.ori ≤ 0 <;> simp [ha, hb, h2]
+
+
+/-! ### a network that is modified between the calls -/
+section modified
+open TV.GraphMut
+
+/-- CURRENT CONTENT. Take a network built and modified by ANY sequence of calls — `addNode`, `addEdge` (also after searches),
+`getEdge(i).weight = w`, `getEdge(i).geom = track`, `getNode(v).coord = c`, interleaved with any routing calls — but no
+assignment to an orientation attribute. Then `shortest_path(s, t, cut[, output_dict])` for two registered nodes returns what
+it returns on a FRESH network holding the nodes, edges, weights, polylines and coordinates the object has NOW: nothing is
+remembered of the earlier weights, of the flags of the earlier searches, of the order in which the content came about. -/
+theorem mut_path_fresh (n : Nat) (ops : List (GraphMut.Op W)) (hno : ∀ op ∈ ops, op.isSetOri = false)
+    (s t : NodeArg) (cut : Option W) (ud : Bool)
+    (hs : registered (runOps (Obj.new n) ops).2 (correctInputNode s) = true)
+    (ht : registered (runOps (Obj.new n) ops).2 (correctInputNode t) = true) :
+    (exec (runOps (Obj.new n) ops).2 (.path s t cut ud)).2 =
+      .path (shortestPathT (netOf (runOps (Obj.new n) ops).2) (geoOf (runOps (Obj.new n) ops).2) (correctInputNode s) (correctInputNode t) cut)
+            (shortestDistance (netOf (runOps (Obj.new n) ops).2) (correctInputNode s) (correctInputNode t) cut) :=
+  path_query _ (runOps_inv ops _ (inv_new n) hno) s t cut ud hs ht
+
+/-- T1/T2/T4 on the modified network: `shortest_path(s, t)` after any such history never diverges, returns `None` exactly
+when `t` is unreachable in the CURRENT network (current edges, current orientations) or `t = s`, and otherwise the chain of a
+route of the current network whose CURRENT weights sum to the CURRENT shortest distance; the label it leaves on `t` is what
+`shortest_distance` reports on a fresh network with that content. -/
+theorem mut_path_optimal (n : Nat) (ops : List (GraphMut.Op W)) (hno : ∀ op ∈ ops, op.isSetOri = false)
+    (s t : NodeArg) (ud : Bool)
+    (hs : registered (runOps (Obj.new n) ops).2 (correctInputNode s) = true)
+    (ht : registered (runOps (Obj.new n) ops).2 (correctInputNode t) = true) :
+    ∃ b, (exec (runOps (Obj.new n) ops).2 (.path s t none ud)).2 =
+        .path b (shortestDistance (netOf (runOps (Obj.new n) ops).2) (correctInputNode s) (correctInputNode t) none) ∧
+      b ≠ .diverge ∧
+      (b = .none ↔ (¬ Reachable (netOf (runOps (Obj.new n) ops).2) (correctInputNode s) (correctInputNode t) ∨
+                    correctInputNode t = correctInputNode s)) ∧
+      (∀ nodes trk, b = .path nodes trk → ∃ l g g' y, nodes = l ++ [correctInputNode t] ∧
+        trk = ⟨g ++ [(geoOf (runOps (Obj.new n) ops).2).pos (correctInputNode t)], []⟩ ∧
+        Route (netOf (runOps (Obj.new n) ops).2) (geoOf (runOps (Obj.new n) ops).2).toGeo (correctInputNode s) l g g' (correctInputNode t) y ∧
+        IsDist (netOf (runOps (Obj.new n) ops).2) (correctInputNode s) (correctInputNode t) y) := by
+  have hi := runOps_inv ops _ (inv_new n) hno
+  generalize (runOps (Obj.new n) ops).2 = o at hi hs ht ⊢
+  have hlt : correctInputNode s < (netOf o).n := registered_lt o hi _ hs
+  obtain ⟨h1, h2, h3⟩ := path_optimal_track (netOf o) hi.wf hi.uniq (geoOf o) (correctInputNode s) (correctInputNode t) hlt
+  exact ⟨_, path_query o hi s t none ud hs ht, h1, h2, h3⟩
+
+/-- the same with ANY cut-off (also one below the current distance): a returned track is the chain of a real route of the
+current network, its current weights sum to the value `y` that `shortest_distance(s, t, cut)` reports, `y` is at least the
+current distance and equal to it unless it exceeds the cut-off -/
+theorem mut_path_cut_sound (n : Nat) (ops : List (GraphMut.Op W)) (hno : ∀ op ∈ ops, op.isSetOri = false)
+    (s t : NodeArg) (cut : Option W) (ud : Bool)
+    (hs : registered (runOps (Obj.new n) ops).2 (correctInputNode s) = true)
+    (ht : registered (runOps (Obj.new n) ops).2 (correctInputNode t) = true)
+    (nodes : List Nat) (trk : Seq.Track) (lab : Option W)
+    (h : (exec (runOps (Obj.new n) ops).2 (.path s t cut ud)).2 = .path (.path nodes trk) lab) :
+    ∃ l g g' y d, nodes = l ++ [correctInputNode t] ∧ trk = ⟨g ++ [(geoOf (runOps (Obj.new n) ops).2).pos (correctInputNode t)], []⟩ ∧
+      Route (netOf (runOps (Obj.new n) ops).2) (geoOf (runOps (Obj.new n) ops).2).toGeo (correctInputNode s) l g g' (correctInputNode t) y ∧
+      lab = some y ∧ IsDist (netOf (runOps (Obj.new n) ops).2) (correctInputNode s) (correctInputNode t) d ∧ d ≤ y ∧ (Within cut y → y = d) := by
+  have hi := runOps_inv ops _ (inv_new n) hno
+  generalize (runOps (Obj.new n) ops).2 = o at hi hs ht h ⊢
+  have hlt : correctInputNode s < (netOf o).n := registered_lt o hi _ hs
+  rw [path_query o hi s t cut ud hs ht] at h
+  simp only [GraphMut.Out.path.injEq] at h
+  obtain ⟨hb, hl⟩ := h
+  rw [track_operators_agree] at hb
+  obtain ⟨h1, h2⟩ := liftBack_path hb
+  obtain ⟨l, g, g', y, d, a, b, c, e, f, g1, g2⟩ :=
+    path_cut_sound (netOf o) hi.wf hi.uniq (geoOf o).toGeo (correctInputNode s) (correctInputNode t) hlt cut nodes trk.pts h1
+  refine ⟨l, g, g', y, d, a, ?_, c, by rw [← hl, e], f, g1, g2⟩
+  cases trk with
+  | mk p tb => simp only at b h2; rw [b, h2]; rfl
+
+/-- T3 on the modified network: when, NOW, every polyline runs from the current position of its edge's source to the current
+position of its target (nodes moved together with the polylines that end there, new polylines joining the positions), the
+returned geometry is the position of `s` followed by the used edges' current polylines, each oriented along the travel and
+without its first vertex; it starts at the current position of `s`, ends at that of `t`, and has no analytical feature. -/
+theorem mut_geometry_chained (n : Nat) (ops : List (GraphMut.Op W)) (hno : ∀ op ∈ ops, op.isSetOri = false)
+    (s t : NodeArg) (cut : Option W) (ud : Bool)
+    (hs : registered (runOps (Obj.new n) ops).2 (correctInputNode s) = true)
+    (ht : registered (runOps (Obj.new n) ops).2 (correctInputNode t) = true)
+    (hgeo : GeoOK (netOf (runOps (Obj.new n) ops).2) (geoOf (runOps (Obj.new n) ops).2).toGeo)
+    (nodes : List Nat) (trk : Seq.Track) (lab : Option W)
+    (h : (exec (runOps (Obj.new n) ops).2 (.path s t cut ud)).2 = .path (.path nodes trk) lab) :
+    ∃ l g g' y, nodes = l ++ [correctInputNode t] ∧
+      Route (netOf (runOps (Obj.new n) ops).2) (geoOf (runOps (Obj.new n) ops).2).toGeo (correctInputNode s) l g g' (correctInputNode t) y ∧
+      trk.pts = (geoOf (runOps (Obj.new n) ops).2).pos (correctInputNode s) :: g' ∧ trk.table = [] ∧
+      trk.pts.head? = some ((geoOf (runOps (Obj.new n) ops).2).pos (correctInputNode s)) ∧
+      trk.pts.getLast? = some ((geoOf (runOps (Obj.new n) ops).2).pos (correctInputNode t)) := by
+  have hi := runOps_inv ops _ (inv_new n) hno
+  generalize (runOps (Obj.new n) ops).2 = o at hi hs ht hgeo h ⊢
+  have hlt : correctInputNode s < (netOf o).n := registered_lt o hi _ hs
+  rw [path_query o hi s t cut ud hs ht] at h
+  simp only [GraphMut.Out.path.injEq] at h
+  exact geometry_chained_track (netOf o) hi.wf hi.uniq (geoOf o) hgeo _ _ hlt cut nodes trk h.1
+
+omit [WalkAdd W] in
+/-- FROZEN ORIENTATION. `getEdge(i).orientation = x` on a built network changes an attribute that only `addEdge` reads:
+whatever calls follow (routing calls, further modifications, further `addEdge`), every one of them returns exactly what it
+would have returned without the assignment. The directions in which an edge may be travelled are those of the moment it was
+added (`NEXT_EDGES`). -/
+theorem orientation_attribute_not_read (o : Obj W) (i : Nat) (x : Int) (ops : List (GraphMut.Op W)) :
+    (runOps (exec o (.setOri i x)).1 ops).1 = (runOps o ops).1 :=
+  (runOps_oriEq ops _ _ (setOri_oriEq o i x)).1
+
+/-- so, for a network that was built and modified without touching an orientation: after `getEdge(i).orientation = x` a
+`shortest_path` still answers for the content BEFORE the assignment (the orientations the edges were added with) -/
+theorem path_after_orientation_assignment (n : Nat) (ops : List (GraphMut.Op W)) (hno : ∀ op ∈ ops, op.isSetOri = false)
+    (i : Nat) (x : Int) (s t : NodeArg) (cut : Option W) (ud : Bool)
+    (hs : registered (runOps (Obj.new n) ops).2 (correctInputNode s) = true)
+    (ht : registered (runOps (Obj.new n) ops).2 (correctInputNode t) = true) :
+    (exec (exec (runOps (Obj.new n) ops).2 (.setOri i x)).1 (.path s t cut ud)).2 =
+      .path (shortestPathT (netOf (runOps (Obj.new n) ops).2) (geoOf (runOps (Obj.new n) ops).2) (correctInputNode s) (correctInputNode t) cut)
+            (shortestDistance (netOf (runOps (Obj.new n) ops).2) (correctInputNode s) (correctInputNode t) cut) := by
+  rw [(exec_oriEq _ _ (setOri_oriEq (runOps (Obj.new n) ops).2 i x) (.path s t cut ud)).2]
+  exact mut_path_fresh n ops hno s t cut ud hs ht
+
+/-- ANY history, orientation assignments included: after any sequence of calls on a new network, `shortest_path(s, t, cut)`
+answers for a fresh network holding the content that the SAME history WITHOUT its orientation assignments produces — the
+current nodes, edges, weights, polylines and coordinates, each edge with the orientation it was added with. -/
+theorem path_any_history (n : Nat) (ops : List (GraphMut.Op W)) (s t : NodeArg) (cut : Option W) (ud : Bool)
+    (hs : registered (runOps (Obj.new n) ops).2 (correctInputNode s) = true)
+    (ht : registered (runOps (Obj.new n) ops).2 (correctInputNode t) = true) :
+    (exec (runOps (Obj.new n) ops).2 (.path s t cut ud)).2 =
+      .path (shortestPathT (netOf (runOps (Obj.new n) (dropOri ops)).2) (geoOf (runOps (Obj.new n) (dropOri ops)).2)
+               (correctInputNode s) (correctInputNode t) cut)
+            (shortestDistance (netOf (runOps (Obj.new n) (dropOri ops)).2) (correctInputNode s) (correctInputNode t) cut) := by
+  have he := runOps_dropOri ops (Obj.new n) (Obj.new n) (OriEq.refl _)
+  rw [(exec_oriEq _ _ he (.path s t cut ud)).2]
+  rw [registered_oriEq _ _ he] at hs ht
+  exact mut_path_fresh n (dropOri ops) (dropOri_clean ops) s t cut ud hs ht
+
+/-- TERMINATION, any history: whatever the calls were — modifications of any kind, orientation assignments, searches stopped
+at targets or cut-offs, `run_routing_backward` on flags older than the last modification, calls naming unknown nodes — no
+`shortest_path` / `run_routing_backward` of the sequence runs for ever (the `while node.antecedent != ""` loop follows ranked
+antecedents through edges that are still in `EDGES`: nothing is ever removed). -/
+theorem mut_never_diverges (n : Nat) (ops : List (GraphMut.Op W)) (b : BackT) (lab : Option W)
+    (h : GraphMut.Out.path b lab ∈ (runOps (Obj.new n) ops).1) : b ≠ .diverge :=
+  runOps_ends ops (Obj.new n) (Obj.new n) (OriEq.refl _) (inv_new n) (chainOK_new n) _ h
+
+end modified
 
 /-! ### the hypotheses are satisfiable by a non-trivial network, and the model computes on it -/
 
@@ -496,5 +642,76 @@ example : demoBuild.edges.map (·.id) = demo4.edges.map (·.id) ∧ demoBuild.ne
     posOf demoBuild 1 = some (ob 1) ∧ posOf demoBuild 2 = some (ob 2) := by decide +kernel
 /-- a two-way edge from a node to itself is entered twice in `NEXT_EDGES` -/
 example : (build (NetObj.empty : NetObj Int Nat) [(⟨7, 0, 0, 1, 0⟩, 5, 5)]).next 0 = [7, 7] := by decide +kernel
+
+
+/-! ### a network that is built and modified by the calls themselves -/
+open TV.GraphMut in
+/-- `a –4– b –4– c`, `a → d` one-way (stored `d → a`, `SENS_INVERSE`) 5, `d –5– c`: a→c goes through `b` (8). Road works: the
+weight of `b–c` becomes 50 — a backward pass on the old flags still gives the old route, the next `shortest_path` goes through
+`d` (10). Assigning `SENS_DIRECT` to the one-way edge changes nothing (`orientation_attribute_not_read`). Node `d` is moved
+together with the two polylines that end there. A new node 4 enters with an edge 4→c (`run_routing_backward(4)` before the
+next search: `AttributeError`), then an edge a→4 of weight 0 (its Node objects carry other coordinates: ignored): a→4→c (1).
+Unknown node, unknown edge: `KeyError`; a negative weight is outside the domain. -/
+def demoOps : List (GraphMut.Op Int) :=
+  [.addEdge ⟨0, 0, 1, 4, 0⟩ (ob 0) (ob 1) ⟨[ob 0, ob 10, ob 1], []⟩,
+   .addEdge ⟨1, 1, 2, 4, 0⟩ (ob 1) (ob 2) ⟨[ob 1, ob 2], [("speed", 0)]⟩,
+   .addEdge ⟨2, 3, 0, 5, -1⟩ (ob 3) (ob 0) ⟨[ob 3, ob 0], []⟩,
+   .addEdge ⟨3, 3, 2, 5, 0⟩ (ob 3) (ob 2) ⟨[ob 3, ob 30, ob 2], []⟩,
+   .path (.id 0) (.id 2) none false,
+   .setWeight 1 50,
+   .back (.id 2),
+   .path (.id 0) (.obj 2) none false,
+   .setOri 2 1,
+   .path (.id 0) (.id 2) none false,
+   .setCoord 3 (ob 33), .setGeom 2 ⟨[ob 33, ob 0], []⟩, .setGeom 3 ⟨[ob 33, ob 2], []⟩,
+   .path (.id 0) (.id 2) none false,
+   .addEdge ⟨4, 4, 2, 1, 1⟩ (ob 4) (ob 98) ⟨[ob 4, ob 2], []⟩,
+   .back (.id 4),
+   .addEdge ⟨5, 0, 4, 0, 1⟩ (ob 99) (ob 97) ⟨[ob 0, ob 4], []⟩,
+   .path (.id 0) (.id 2) none true,
+   .path (.id 0) (.id 5) none false,
+   .setWeight 9 1, .setWeight 1 (-1)]
+
+open TV.GraphMut in
+example : (runOps (Obj.new 6) demoOps).1 =
+    [.unit, .unit, .unit, .unit,
+     .path (.path [0, 1, 2] ⟨[ob 0, ob 10, ob 1, ob 2], []⟩) (some 8),
+     .unit,
+     .path (.path [0, 1, 2] ⟨[ob 0, ob 10, ob 1, ob 2], []⟩) (some 8),
+     .path (.path [0, 3, 2] ⟨[ob 0, ob 3, ob 30, ob 2], []⟩) (some 10),
+     .unit,
+     .path (.path [0, 3, 2] ⟨[ob 0, ob 3, ob 30, ob 2], []⟩) (some 10),
+     .unit, .unit, .unit,
+     .path (.path [0, 3, 2] ⟨[ob 0, ob 33, ob 2], []⟩) (some 10),
+     .unit, .attrErr, .unit,
+     .path (.path [0, 4, 2] ⟨[ob 0, ob 4, ob 2], []⟩) (some 1),
+     .keyErr, .keyErr, .err] := by decide +kernel
+
+open TV.GraphMut in
+/-- the hypotheses of the `mut_*` theorems on that history (without its orientation assignment): both nodes registered, and the
+final content joins its node positions -/
+example : ∀ op ∈ demoOps.eraseIdx 8, op.isSetOri = false := by decide +kernel
+open TV.GraphMut in
+example : registered (runOps (Obj.new 6) (demoOps.eraseIdx 8)).2 0 = true ∧ registered (runOps (Obj.new 6) (demoOps.eraseIdx 8)).2 2 = true := by
+  decide +kernel
+open TV.GraphMut in
+example : (netOf (runOps (Obj.new 6) (demoOps.eraseIdx 8)).2).edges.all (fun e =>
+    let geo := (geoOf (runOps (Obj.new 6) (demoOps.eraseIdx 8)).2).toGeo
+    (geo.line e.id).head? == some (geo.pos e.src) && (geo.line e.id).getLast? == some (geo.pos e.tgt)) = true := by decide +kernel
+
+/-! ### the theorems do not rest on associativity -/
+/-- weights in `TV.C06.R4` (natural numbers, a sum above 2 is rounded up to the next multiple of 4 — monotone, not
+associative): 0 →1→ 1 →2→ 2 weighs `(0 + 1) + 2 = 4` (rounded), the direct edge 5 -/
+def demoR : Net C06.R4 := { n := 3, edges := [⟨0, 0, 1, C06.R4.of 1, 1⟩, ⟨1, 1, 2, C06.R4.of 2, 1⟩, ⟨2, 0, 2, C06.R4.of 5, 1⟩] }
+example : WFNet demoR := by
+  intro e he
+  simp only [demoR, List.mem_cons, List.not_mem_nil, or_false] at he
+  rcases he with rfl | rfl | rfl <;> exact ⟨by decide, by decide, Nat.zero_le _⟩
+example : UniqueIds demoR := by
+  intro e he e' he' h
+  simp only [demoR, List.mem_cons, List.not_mem_nil, or_false] at he he'
+  rcases he with rfl | rfl | rfl <;> rcases he' with rfl | rfl | rfl <;> first | rfl | (exact absurd h (by decide))
+example : shortestPath demoR demoCutGeo 0 2 none = .path [0, 1, 2] [0, 1, 2] ∧ shortestDistance demoR 0 2 none = some (C06.R4.of 4) := by
+  decide +kernel
 
 end TV.C07
